@@ -86,6 +86,9 @@ def sem(form, flavour: str):
         o = dict(opts)
         if flavour == "pandas" and o.get("na", None) is not False:
             return ("strbad", "pandas string predicate without na=False: nulls propagate as NaN instead of failing")
+        if pat[0] == "rawsrc":
+            return ("strbad", f"the compiled pattern `{pat[1]}` is reduced to its source text (`.pattern`): its flags (re.IGNORECASE, re.DOTALL ...) "
+                              "are dropped, so the check no longer means what the compiled pattern means")
         if kind == "match":
             if pat[0] == "raw":
                 return ("strsem", "match", pat[1])
